@@ -404,6 +404,53 @@ def has_pad(ty):
     return isinstance(ty, Agg) or (isinstance(ty, Array) and has_pad(ty.elem)) or (isinstance(ty, Scalar) and ty.s == 'f80')
 
 
+def addrconst_tu(rng, k0, n):
+    """Address constants in static initializers: pointers into static aggregates written in every spelling (address of
+    a leaf, decayed array member, member + k, &member[k], k + member, array of structs, byte offsets, pointer to pointer,
+    inside a struct initializer) are dumped as offsets from the object's base, next to the same expression evaluated by
+    code in an automatic initializer."""
+    lines, body, owners = [PRELUDE], [], []
+    k = k0
+    for t in range(n):
+        g = ctype.Gen(rng, bitfields=False, packed=False, max_depth=rng.choice([1, 2, 3]), max_members=rng.choice([3, 5]), flex=False, zero_width=False, unnamed_bf=False)
+        ty = g.agg(0)
+        tn = 'AC%d' % t
+        lines.append('typedef %s %s;' % (ctype.typespec(ty), tn))
+        lines.append('static %s ag%d; static %s aga%d[3];' % (tn, t, tn, t))
+        lv = []
+        ctype.leaves(ty, '', lv, 200)
+        lv = [l for l in lv if l[2] is None]
+        if not lv:
+            continue
+        exprs = []
+        for (path, sc, _) in rng.sample(lv, min(len(lv), 6)):
+            i = rng.randrange(3)
+            exprs.append(('addr-of-leaf', '&ag%d%s' % (t, path)))
+            exprs.append(('addr-of-leaf-in-array-of-struct', '&aga%d[%d]%s' % (t, i, path)))
+            if path.endswith(']'):
+                pre, idx = path[:path.rindex('[')], int(path[path.rindex('[') + 1:-1])
+                exprs.append(('decayed-array-member', 'ag%d%s' % (t, pre)))
+                exprs.append(('decayed-array-member+k', 'ag%d%s + %d' % (t, pre, idx)))
+                exprs.append(('k+decayed-array-member', '%d + aga%d[%d]%s' % (idx, t, i, pre)))
+                exprs.append(('addr-of-element-1', '&ag%d%s[%d] - 1' % (t, pre, idx + 1)))
+                exprs.append(('addr-of-deref-sum', '&*(ag%d%s + %d)' % (t, pre, idx)))
+            exprs.append(('byte-offset', '(char *)&ag%d + %d' % (t, rng.randrange(0, 40))))
+            exprs.append(('object+1', '&aga%d[%d] + 1' % (t, i)))
+            exprs.append(('cast-chain', '(long *)(void *)&ag%d%s' % (t, path)))
+        for (feat, e) in exprs:
+            base = 'aga%d' % t if 'aga%d' % t in e else 'ag%d' % t
+            lines.append('static char *acp%d = (char *)(%s);' % (k, e))
+            lines.append('static struct { char c; char *p; long n; char **pp; } acs%d = { 1, (char *)(%s), %d, &acp%d };' % (k, e, k, k))
+            body.append('{ char *a = (char *)(%s); OUTV(%d, acp%d - (char *)&%s); OUTV(%d, acs%d.p - (char *)&%s); OUTV(%d, *acs%d.pp - (char *)&%s); OUTV(%d, a - (char *)&%s); }' %
+                        (e, k, k, base, k, k, base, k, k, base, k, base))
+            for form in ('static-pointer', 'static-struct-member', 'static-pointer-to-pointer', 'auto'):
+                owners.append(('C05|address-constant|%s|%s' % (feat, form), 'address constant %s' % feat, e))
+            k += 1
+    fns = ['static void ac%d(void) %s' % (i, b) for i, b in enumerate(body)]
+    src = '\n'.join(lines) + '\n' + '\n'.join(fns) + '\nint main(void) { %s return 0; }\n' % ' '.join('ac%d();' % i for i in range(len(body)))
+    return src, owners, k
+
+
 def run_tu(a):
     (idx, cc, work, src) = a
     p = os.path.join(work, 'tu%d.c' % idx)
@@ -434,6 +481,11 @@ def run(ctx):
         src = '\n'.join(lines) + '\n' + '\n'.join(fns) + '\nint main(void) { %s return 0; }\n' % ' '.join(calls)
         tus.append((src, owners))
     ctx.count('initializers', k)
+    for i in range(ctx.scale(6, 60)):
+        src, owners, k = addrconst_tu(rng, k, 12)
+        for o in owners:
+            ctx.saw(o[0])
+        tus.append((src, owners))
     probe = PRELUDE + '''
 struct P { int a, b, c; };
 static int sx[2][3] = {1, 2, 3, 4, 5, 6, [0] = {7, 8}, 9, 10};
